@@ -121,6 +121,7 @@ type GuardSpec struct {
 	Locked     map[string]int      // function (shortFn) -> mode assumed held on its receiver at entry; verified at callers
 	Exempt     map[string]string   // function (shortFn) -> reason (constructors etc.)
 	ReadOK     map[string]string   // field -> reason reads without the lock are fine (e.g. immutable after construction)
+	ReadOKFuncs map[string]string  // function -> reason its READS need no lock (e.g. runs only on the single writer goroutine)
 }
 
 type lockFinding struct {
@@ -341,6 +342,9 @@ func checkGuards(c *Ctx, spec GuardSpec) {
 				}
 				if !w {
 					if _, ok := spec.ReadOK[f]; ok {
+						return
+					}
+					if _, ok := spec.ReadOKFuncs[key]; ok {
 						return
 					}
 				}
